@@ -295,6 +295,15 @@ class TestEval:
                 v = _cmp(op, _flip(rel))
                 if v is not None:
                     return v
+            # linear spelling of the same comparison:  left - right <op> 0,  0 <op> right - left, ...
+            if self.left != '?' and self.right != '?' and not isinstance(op, (ast.Eq, ast.NotEq)):
+                nz = compare_leq_zero(a, {self.left: 'L', self.right: 'R'})
+                if nz is not None:
+                    d, strict = nz
+                    if d == {'L': 1, 'R': -1}:      # L - R (<|<=) 0
+                        return rel == '<' or (not strict and rel == '==')
+                    if d == {'L': -1, 'R': 1}:      # R - L (<|<=) 0
+                        return rel == '>' or (not strict and rel == '==')
             # len(C) <op> small constant
             for x, y, flipped in ((lhs, rhs, False), (rhs, lhs, True)):
                 if isinstance(x, ast.Call) and pf.dotted(x.func) == 'len' and len(x.args) == 1 and pf.nsrc(x.args[0]) in nonempty \
